@@ -90,10 +90,14 @@ def spec (tg : String → Nat) (now0 : Nat) (ops : List Op) (outs : List (Option
 
 /-! ### explanation of a failure (for replay files) -/
 
-def explainView (live : GMap Rec) (out : List Proposal) : String :=
+/-- `gone`: (type, work id) pairs surfaced in an outcome and not re-added since -/
+def explainView (t : Nat) (gone : List (Nat × String)) (live : GMap Rec) (out : List Proposal) : String :=
   if !decide ((out.map (·.workID)).Nodup) then "view: a proposal is returned twice"
   else if !live.all (fun e => out.contains e.2.proposal) then "view: an unexpired pending proposal is missing from the result"
-  else "view: result contains a proposal that is expired, removed/surfaced or was never added"
+  else
+    match out.find? (fun p => gone.contains (t, p.workID) && !live.any (fun e => e.2.proposal == p)) with
+    | some p => s!"view: a proposal surfaced in an outcome is still pending and would be proposed again (work id {p.workID})"
+    | none => "view: result contains a proposal that is expired, removed or was never added"
 
 def explainEvents : List Ev → String
   | [] => "ok"
@@ -102,22 +106,28 @@ def explainEvents : List Ev → String
       s!"queue: (work id {e.w}, block {e.b}) handed to the finalisation flow twice within the 20 s window"
     else explainEvents es
 
-def explainRun (tg : String → Nat) : List Op → List (Option (List Proposal)) → SSt → Nat → Option String
-  | [], _, _, _ => none
-  | op :: ops, outs, s, i =>
+def explainRun (tg : String → Nat) : List Op → List (Option (List Proposal)) → SSt → Nat → List (Nat × String) →
+    Option String
+  | [], _, _, _, _ => none
+  | op :: ops, outs, s, i, gone =>
     let out := outs.head?.join.getD []
     let (s', ok, _) := sStep tg s op out
     if !ok then
       match op with
       | .view t =>
-        if t = logT then some s!"op {i}: {explainView (liveOf Gen.logRecoveryExpiryNs s.now s.log) out}"
-        else if t = condT then some s!"op {i}: {explainView (liveOf Gen.conditionalExpiryNs s.now s.cond) out}"
+        if t = logT then some s!"op {i}: {explainView t gone (liveOf Gen.logRecoveryExpiryNs s.now s.log) out}"
+        else if t = condT then some s!"op {i}: {explainView t gone (liveOf Gen.conditionalExpiryNs s.now s.cond) out}"
         else some s!"op {i}: view: non-empty result for an unknown upkeep type"
       | _ => some s!"op {i}: unexpected verdict"
-    else explainRun tg ops outs.tail s' (i + 1)
+    else
+      let gone' := match op with
+        | .outcome sf => sf.flatten.map (fun p => (tg p.upkeepID, p.workID)) ++ gone
+        | .add ps => gone.filter (fun g => !ps.any (fun p => tg p.upkeepID == g.1 && p.workID == g.2))
+        | _ => gone
+      explainRun tg ops outs.tail s' (i + 1) gone'
 
 def explain (tg : String → Nat) (now0 : Nat) (ops : List Op) (outs : List (Option (List Proposal))) : String :=
-  match explainRun tg ops outs (SSt.init now0) 0 with
+  match explainRun tg ops outs (SSt.init now0) 0 [] with
   | some s => s
   | none => explainEvents (sRun tg ops outs (SSt.init now0)).2
 
